@@ -32,8 +32,8 @@ nm = sum(1 for r in rows if r[2].startswith('missed') or r[2].startswith('inconc
 npre = sum(1 for r in rows if 'extended from the seed summary' in r[2])
 ncaught = sum(1 for r in rows if r[4] == '1')
 head = (f"{len(rows)} changes were written by independent sub-agents that saw only the property text and a scratch "
-        "worktree (two rounds of 20 properties x 2, a third round of 15 x 2 and a fourth of 5 x 2 with the earlier "
-        "summaries as an exclusion list). Each was confirmed in a scratch worktree (builds, existing suite passes, demo "
+        "worktree (eight rounds: 20x2, 20x2, 15x2, 5x2, then four rounds of 10 properties x 2, each with all "
+        "earlier summaries as an exclusion list and, from round 5 on, a request for longer and more structured inputs). Each was confirmed in a scratch worktree (builds, existing suite passes, demo "
         "fails with / passes without the change; `seedtest.sh`), then run through the quick check of its property on a "
         "scratch copy (VERIF_REPO; /repo untouched). First runs: "
         f"{len(rows)-nm-npre} caught as is, {npre} caught after I had extended a harness from the agent's summary (before "
